@@ -21,7 +21,11 @@ the installed pyparsing source. Violation = a class other than
 ParserException reaching an entry point, reported with the witness chain.
 Fail actions (set_fail_action) are roots too, without the IndexError
 conversion; a regular-expression match dereferenced without None test is an
-AttributeError fact. Not decided: hangs; equality of a surviving edition with the complete
+AttributeError fact. LOCK-PAIR - the process-wide pyparsing lock is taken with `with`, or every
+CFG path from an explicit acquire() to an exit of the function (exceptional
+exits and the yield of a generator-based context manager included) passes its
+release(). Not decided: other hangs (loops waiting for a line that never
+comes); equality of a surviving edition with the complete
 listing; exceptions originating in library calls outside the primitive
 table; the ParseResult post-processing layer (its raise sites validate
 programmer-supplied types, not listing content).
@@ -35,6 +39,7 @@ ASSUMPTIONS = [
 
 def check(ctx):
     ctx.run(parsers.check_exc_esc)
+    ctx.run(parsers.check_lock_pair)
 
 
 def variants(program):
